@@ -10,6 +10,7 @@ import Mfi.Lemmas.FxL
 import Mfi.Lemmas.ResL
 import Mfi.Lemmas.BankL
 import Mfi.Props.C03
+import Mfi.Model.Ix
 
 namespace Mfi.Props.C02
 open Mfi Mfi.Fx Mfi.Bank Mfi.Gen
@@ -422,6 +423,35 @@ theorem close_bank_only_dust {L : Ledger} (hi : Inv L)
   have h2 := habs _ _ hc.2
   constructor <;> omega
 
+/-- what the real `lending_pool_close_bank` demands (model Ix.closeBank, diffed against the real instruction through
+    dispatch: ix.closebank lines): closable by version, no open position counted on either side, both share totals and the
+    unclaimed emissions zero within the tolerance -/
+theorem close_bank_requires {b : Bank} (h : Mfi.Ix.closeBank b = .ok ()) :
+    b.flags &&& CLOSE_ENABLED_FLAG.toNat ≠ 0 ∧ b.lendCnt = 0 ∧ b.borrowCnt = 0 ∧
+    isZeroTol b.sa ZERO_AMOUNT_THRESHOLD = true ∧ isZeroTol b.sl ZERO_AMOUNT_THRESHOLD = true ∧
+    isZeroTol b.emissionsRemaining ZERO_AMOUNT_THRESHOLD = true := by
+  unfold Mfi.Ix.closeBank at h
+  split at h
+  · simp [merr] at h
+  rename_i h1
+  split at h
+  · simp [merr] at h
+  rename_i h2
+  split at h
+  · simp [merr] at h
+  rename_i h3
+  split at h
+  · simp [merr] at h
+  rename_i h4
+  simp at h2 h3 h4
+  exact ⟨h1, h2.1, h2.2, h3.1, h3.2, h4⟩
+
+/-- **a bank can only be closed when no account holds more than dust in it**: the instruction's own test, in any ledger
+    reachable by the operations of this file -/
+theorem closed_bank_holds_only_dust {L : Ledger} (hi : Inv L) (h : Mfi.Ix.closeBank L.bank = .ok ()) :
+    ∀ x ∈ L.bals, x.a < ZERO_AMOUNT_THRESHOLD ∧ x.l < ZERO_AMOUNT_THRESHOLD :=
+  close_bank_only_dust hi ⟨(close_bank_requires h).2.2.2.1, (close_bank_requires h).2.2.2.2.1⟩
+
 /-! ### the numbers of the property text (constants regenerated from the real crates on every run) -/
 
 /-- "sub-0.0001-unit dust": the tolerance every closure tests against is 0.0001 of a native unit to the last bit of
@@ -429,5 +459,36 @@ theorem close_bank_only_dust {L : Ledger} (hi : Inv L)
 theorem dust_is_a_ten_thousandth :
     Mfi.Gen.ZERO_AMOUNT_THRESHOLD * 10000 ≤ Mfi.Fx.ONE ∧ Mfi.Fx.ONE < (Mfi.Gen.ZERO_AMOUNT_THRESHOLD + 1) * 10000 ∧
     Mfi.Gen.EMPTY_BALANCE_THRESHOLD = Mfi.Fx.ONE := by decide
+
+/-- **purge_spec**: the risk admin's purge of a lender position in a sunset bank closes the position, lowers the bank's
+    deposit total by EXACTLY the position's deposit shares, leaves the debt total alone — and is accepted only when the
+    position's debt residue is worth less than the 0.0001-unit dust threshold at the current share value (so what it
+    abandons in the debt total is dust, like every other closure). -/
+theorem purge_spec {b b' : Bank} {x : Balance} {x' : Option Balance} {t : Int}
+    (h : Mfi.Ix.purge b (some x) = .ok (b', x', t)) :
+    ∃ la, liabAmount b x.l = .ok la ∧ Fx.abs la < ZERO_AMOUNT_THRESHOLD ∧
+      b'.sa = b.sa - x.a ∧ b'.sl = b.sl ∧ b'.asv = b.asv ∧ b'.lsv = b.lsv ∧
+      x' = some emptyDeactivated ∧ t = 0 := by
+  unfold Mfi.Ix.purge at h
+  simp only at h
+  obtain ⟨la, hla, h⟩ := Res.bind_ok h
+  split at h
+  · simp [merr] at h
+  rename_i hthr
+  obtain ⟨xc, hxc, h⟩ := Res.bind_ok h
+  obtain ⟨b2, hb2, h⟩ := Res.bind_ok h
+  injection h with h; injection h with hb h; injection h with hx ht
+  have hclose : xc = emptyDeactivated := by
+    unfold closeBalance at hxc
+    simp at hxc
+    exact hxc.symm
+  obtain ⟨e2, _, _⟩ := changeAsset_frame hb2
+  subst hb
+  refine ⟨la, hla, by omega, ?_, ?_, ?_, ?_, ?_, ht.symm⟩
+  · rw [e2]; simp; omega
+  · rw [e2]
+  · rw [e2]
+  · rw [e2]
+  · rw [← hx, hclose]
 
 end Mfi.Props.C02
